@@ -83,14 +83,16 @@ class CountingInline final : public yaclib::IExecutor {
   int submits = 0;
 };
 
-const char* kProducers[] = {"value", "error", "exception", "drop"};
+const char* kProducers[] = {"value", "error", "exception", "drop", "passign"};
 const char* kConsumers[] = {"then_inline", "then_e",    "detach",   "detach_inline", "detach_e",
                             "get_move",    "get_const", "wait",     "connect",       "drop",
                             "wait_then",   "peek_get_move",
                             // a timed wait (deadline in virtual ns) that may give up, then the future is consumed
                             "waitfor5_get", "waitfor25_get", "waitfor45_get", "waitfor5_then", "waitfor25_then",
-                            "waitfor45_then"};
-constexpr int kConsumerCount = 18;
+                            "waitfor45_then",
+                            // the future is overwritten by move assignment from another contract's future
+                            "fassign"};
+constexpr int kConsumerCount = 19;
 
 struct Scenario {
   int pk;
@@ -127,9 +129,17 @@ void Produce(int pk, yaclib::Promise<Payload, Err> p, int delay_ns) {
     case 2:
       std::move(p).Set(std::make_exception_ptr(7));
       break;
-    default: {
+    case 3: {
       auto q = std::move(p);
+      break;
     }  // ~Promise
+    default: {
+      // the promise is overwritten by move assignment while it still owns its unfulfilled state: the old state must be
+      // completed with StopError exactly like a dropped promise
+      auto [f2, p2] = yaclib::MakeContract<Payload, Err>();
+      p = std::move(p2);
+      (void)f2;
+    }
   }
 }
 
@@ -214,6 +224,12 @@ void Consume(int ck, yaclib::Future<Payload, Err> f, Obs& obs, CountingInline& e
       auto g = std::move(f);
       break;
     }
+    case 18: {  // the future is overwritten while pending: like ~Future for the old state
+      auto [f2, p2] = yaclib::MakeContract<Payload, Err>();
+      f = std::move(f2);
+      std::move(p2).Set(Payload{1});
+      break;
+    }
     case 10: {  // Wait, then attach a continuation
       vrt::Event("wait");
       yaclib::Wait(f);
@@ -278,8 +294,8 @@ void RunScenario(Scenario sc) {
   tc.join();
   // ---- oracle (property text): exactly once, intact, nothing if dropped
   const long want = Expected(sc.pk);
-  const bool attach = sc.ck == 0 || sc.ck == 1 || sc.ck == 3 || sc.ck == 4 || sc.ck == 8 || sc.ck == 10 || sc.ck >= 15;
-  const bool silent = sc.ck == 2 || sc.ck == 9;
+  const bool attach = sc.ck == 0 || sc.ck == 1 || sc.ck == 3 || sc.ck == 4 || sc.ck == 8 || sc.ck == 10 || (sc.ck >= 15 && sc.ck <= 17);
+  const bool silent = sc.ck == 2 || sc.ck == 9 || sc.ck == 18;
   if (attach) {
     if (obs.cb_count != 1) {
       vrt::Fail("continuation invoked " + std::to_string(obs.cb_count) + " times");
@@ -313,10 +329,10 @@ void RunScenario(Scenario sc) {
 
 int main(int argc, char** argv) {
   vrt::Main m(argc, argv);
-  for (int pk = 0; pk < 4; ++pk) {
+  for (int pk = 0; pk < 5; ++pk) {
     for (int ck = 0; ck < kConsumerCount; ++ck) {
       std::string name = std::string(kProducers[pk]) + "/" + kConsumers[ck];
-      if (ck < 12) {
+      if (ck < 12 || ck == 18) {
         m.Scenario(name, [=] {
           RunScenario(Scenario{pk, ck, 0});
         });
